@@ -85,6 +85,19 @@ def vianullary(n):     # f(n) = n == 0 ? 0 : (λ(). f(n-1))(): the back edge is 
     return (f"{enc(n)} (ㄱ (((ㄱㅇㄴ ㄴㄱ ㄷㅎㄷ) ㄴㅇ ㅎㄴ ㅎ) ㅎㄱ) {COND} ㅎㄷ ㅎ) ㅎㄴ", "0")
 
 
+def viapipe(n):        # f(n) = n == 0 ? 0 : (dec ∘ f)(n) — the back edge is the last stage of a two-stage pipe ㄴㄱ (seeded change
+    # S05k drove the last stage of a pipe with a nested evaluation instead of handing it over)
+    return (f"{enc(n)} (ㄱ (ㄱㅇㄱ ((ㄱㅇㄱ ㄴㄱ ㄷㅎㄷ ㅎ) (ㄱㅇ) ㄴㄱㅎㄷ) ㅎㄴ) {COND} ㅎㄷ ㅎ) ㅎㄴ", "0")
+
+
+def viapipe1(n):       # the same through a one-stage pipe applied to n-1
+    return (f"{enc(n)} (ㄱ ((ㄱㅇㄱ ㄴㄱ ㄷㅎㄷ) ((ㄱㅇ) ㄴㄱㅎㄴ) ㅎㄴ) {COND} ㅎㄷ ㅎ) ㅎㄴ", "0")
+
+
+def viaspread(n):      # f(n) = n == 0 ? 0 : spread(f)([n-1]) — the back edge is the call made by ㅁㅂ with the list spread out
+    return (f"{enc(n)} (ㄱ ((ㄱㅇㄱ ㄴㄱ ㄷㅎㄷ) ㅁㄹㅎㄴ) ((ㄱㅇ) ㅁㅂㅎㄴ) ㅎㄴ) {COND} ㅎㄷ ㅎ) ㅎㄴ", "0")
+
+
 def nontail(n):        # s(n) = n == 0 ? 0 : n + s(n-1)   (frames grow with n)
     return (f"{enc(n)} ㄱ (ㄱㅇㄱ ((ㄱㅇㄱ ㄴㄱ ㄷㅎㄷ) ㄱㅇ ㅎㄴ) ㄷㅎㄷ) {COND} ㅎㄷ ㅎ ㅎㄴ", str(n * (n + 1) // 2))
 
@@ -100,7 +113,8 @@ def nestfmt(n):        # printing a list nested n deep (KNOWN FINDING for large 
 TAIL = {'countdown': countdown, 'accum': accum, 'mutual': mutual, 'viabool': viabool, 'rbind': rbind,
         'viahelper': viahelper, 'viaid': viaid, 'viathunk': viathunk, 'viatry': viatry,
         'boolflag': boolflag, 'nilstate': nilstate, 'carried': carried, 'carried-fn': carried_fn,
-        'toggle': toggle, 'clamp': clamp, 'vianullary': vianullary}
+        'toggle': toggle, 'clamp': clamp, 'vianullary': vianullary,
+        'viapipe': viapipe, 'viapipe1': viapipe1, 'viaspread': viaspread}
 
 
 @monitor('c05_value')
